@@ -123,6 +123,10 @@ def _enc(s):
     return s.encode("utf-8", "surrogateescape") if isinstance(s, str) else bytes(s)
 
 
+def _dec(b):
+    return bytes(b).decode("utf-8", "surrogateescape")
+
+
 def _show_msg(cfg, m, has_payload):
     if cfg.response:
         method, path, code, reason = b"", b"", m.code, _enc(m.reason)
@@ -257,6 +261,7 @@ def run_impl(cfg, segs, eof=False):
     from aiohttp.streams import EMPTY_PAYLOAD
     p = make_parser(cfg)
     outs = []
+    all_msgs = []         # every message object handed out, looked at again at the end of the run
     events = []           # flat structured events across the run (for the direct oracle)
     current = None        # payload in progress
     cur_done = False      # `current` has seen EOF or an exception
@@ -293,6 +298,7 @@ def run_impl(cfg, segs, eof=False):
                 hp_ = pl is not EMPTY_PAYLOAD
                 toks.append(_show_msg(cfg, m, hp_))
                 events.append(("M", _show_msg(cfg, m, hp_), _struct_msg(cfg, m)))
+                all_msgs.append(m)
                 if hp_:
                     cur_done = _ended(pl._rec)
                     toks += _show_rec(pl._rec); events += pl._rec; pl._rec = []
@@ -336,7 +342,16 @@ def run_impl(cfg, segs, eof=False):
     # a body stream that was handed to the caller and is neither ended nor failed although feed_data raised:
     # whoever reads that body waits for ever (the connection-level error is queued behind the running handler)
     body_open = err is not None and current is not None and not cur_done
-    return " | ".join(outs), {"events": events, "err": err, "pending": pending, "body_open_after_error": body_open}
+    # what the application reads is `message.headers` (a multidict view), not raw_headers: at the end of the run —
+    # when later messages of the connection have been parsed — each message must still show its own fields
+    hdr_view = None
+    for i, m in enumerate(all_msgs):
+        want = [(_dec(k), _dec(v)) for k, v in m.raw_headers]
+        md = getattr(m.headers, "_md", m.headers)     # HeadersDictProxy joins repeated fields; look at the multidict behind it
+        got = [(str(k), str(v)) for k, v in md.items()]
+        if want != got:
+            hdr_view = (i, got[:4], want[:4]); break
+    return " | ".join(outs), {"events": events, "err": err, "pending": pending, "body_open_after_error": body_open, "hdr_view": hdr_view}
 
 
 def model_line(cfg, segs, eof=False):
@@ -474,7 +489,7 @@ MUTATIONS = ["lfcr", "te_empty", "value_trailing_ctl", "chunk_size_lf", "nonutf8
              "no_colon", "chunk_plus", "chunk_0x", "chunk_space", "chunk_empty", "chunk_big", "chunk_ext_lf", "chunk_ext_cr", "chunk_no_crlf",
              "bad_trailer", "no_host", "dup_host", "empty_host", "byte_flip", "byte_insert", "byte_delete", "truncate",
              "bad_version", "bad_method", "two_spaces", "kelvin_te", "long_line", "many_headers", "abs_bad_url", "connect_bad",
-             "start_line_ws"]
+             "start_line_ws", "te_case"]
 
 
 def mutate(rng, data, kind=None):
@@ -549,7 +564,16 @@ def mutate(rng, data, kind=None):
         return after_first_line(b"Content-Length: 3\r\nTransfer-Encoding: chunked\r\n"), kind
     if kind == "te_list":
         return after_first_line(b"Transfer-Encoding: " + rng.choice([b"chunked, chunked", b"gzip", b"chunked ,", b"chunked, gzip",
-                                                                      b"\x0bchunked", b"chunked;q=1", b", chunked", b"chunked,"]) + b"\r\n"), kind
+                                                                      b"\x0bchunked", b"chunked;q=1", b", chunked", b"chunked,",
+                                                                      b"Chunked, chunked", b"chunked, CHUNKED", b"cHuNkEd, gzip, chunked", b"CHUNKED,chunked",
+                                                                      b"chunked, Chunked ", b"gzip, Chunked", b"CHUNKED"]) + b"\r\n"), kind
+    if kind == "te_case":
+        # codings are case-insensitive: a list that names chunked twice (in any spelling), or not last, with a body
+        # that is valid chunked data and a pipelined request behind it
+        te = rng.choice([b"Chunked, chunked", b"chunked, CHUNKED", b"cHuNkEd, gzip, chunked", b"CHUNKED,chunked", b"chunked,Chunked",
+                         b"Chunked, gzip", b"CHUNKED", b"Chunked", b"gzip, Chunked", b"chunked, chunked"])
+        return (b"POST /c HTTP/1.1\r\nHost: h\r\nTransfer-Encoding: " + te + b"\r\n\r\n3\r\nabc\r\n0\r\n\r\n"
+                b"GET /next HTTP/1.1\r\nHost: h\r\n\r\n"), kind
     if kind == "te_twice":
         return after_first_line(b"Transfer-Encoding: chunked\r\nTransfer-Encoding: chunked\r\n"), kind
     if kind == "te_bad":
